@@ -13,7 +13,8 @@ import tempfile
 
 from vlib.runner import HOME, REPO
 
-TARGETS = {"brine_load": "vlib.fuzz_brine"}
+TARGETS = {"brine_load": "vlib.fuzz_brine", "c07_history": "vlib.fuzz_c07"}
+MAX_LEN = {"brine_load": 512, "c07_history": 8192}
 
 
 def atheris_available():
@@ -40,9 +41,15 @@ def run_campaign(rec, target, runs, seed, corpus_kind, rejudge):
             for i, v in enumerate(seeds):
                 with open(os.path.join(corpus, "seed%02d" % i), "wb") as f:
                     f.write(refcodec.dump(v))
+        elif corpus_kind == "random":
+            # Hypothesis's byte-string front end needs inputs long enough to decode into a history: start from random blobs
+            import hashlib
+            for i in range(8):
+                with open(os.path.join(corpus, "seed%02d" % i), "wb") as f:
+                    f.write(hashlib.shake_256(b"%d/%d" % (seed, i)).digest(3000))
         env = dict(os.environ, PYTHONPATH=os.pathsep.join([REPO, HOME, os.path.join(HOME, ".deps")]), PYTHONHASHSEED="0")
         cmd = [sys.executable, "-m", TARGETS[target], corpus, "-runs=%d" % runs, "-seed=%d" % (seed % (2 ** 31 - 1) + 1),
-               "-max_len=512", "-artifact_prefix=%s/" % crashes, "-print_final_stats=1", "-verbosity=0"]
+               "-max_len=%d" % MAX_LEN[target], "-artifact_prefix=%s/" % crashes, "-print_final_stats=1", "-verbosity=0"]
         r = subprocess.run(cmd, env=env, stdout=subprocess.PIPE, stderr=subprocess.STDOUT, timeout=3600)
         out = r.stdout.decode("utf8", "replace")
         execs = 0
